@@ -27,7 +27,7 @@
 (* mechanism modules (Caches, FlipRepair, ...).  All oracles are           *)
 (* recomputed from the raw cells and integer coordinates.                  *)
 (***************************************************************************)
-EXTENDS Geometry, Topology, TLC
+EXTENDS Geometry, Topology, TLC, LocateWalkOps
 
 Range(s) == {s[i] : i \in DOMAIN s}
 
@@ -594,7 +594,7 @@ StrictlyOutsideHull(S, q) == \E f \in Boundary(K(S)) : InnerSide(S, f, q) < 0
 StrictlyInsideHull(S, q)  == \A f \in Boundary(K(S)) : InnerSide(S, f, q) > 0
 
 \* rs = results of locate for one query point under several hints
-LocateOne(S, valid, item) ==
+LocateOne(S, valid, order, item) ==
   LET q == item.q
       out == StrictlyOutsideHull(S, q)
       \* the side of q relative to every hull hyperplane is exactly decidable: no zero
@@ -619,11 +619,20 @@ LocateOne(S, valid, item) ==
     /\ Chk("C10.answer class depends on the hint", valid /\ dec => Cls(r.kind) = Cls(item.rs[1].kind))
     /\ Chk("C10.statistics variant differs", r.kind2 = r.kind /\ r.cell2 = r.cell)
     /\ Chk("C19.walk steps within budget", r.steps <= 10001 /\ (~r.scan => r.steps <= Len(S.cells) + 1))
+    \* mechanism: the recorded call is the run of LocateWalk (spec/LocateWalkOps.tla) on this complex from the
+    \* recorded start cell: same answer, same number of steps, same use of the scan fallback
+    /\ Chk("MODEL.locate is not the LocateWalk run",
+           valid /\ PertSet(S) = {} /\ r.steps >= 0 /\ Len(order) = Len(S.cells) =>
+             LET C == [k \in DOMAIN order |-> LET c == CRec(S, order[k]) IN [id |-> c.id, vs |-> c.vs, nb |-> c.nb]]
+                 w == Walk(Pos(S), C, q, r.start, 10000)
+             IN  /\ w.steps = r.steps /\ w.scan = r.scan
+                 /\ Cls(r.kind) = (IF w.kind = "In" THEN "In" ELSE "Outside")
+                 /\ (w.kind = "In" => w.cell = r.cell))
 
-Locate(S, r) ==
+Locate(S, a, r) ==
   LET valid == Level1Q(S) /\ Level2Q(S) /\ Len(S.cells) > 0
                /\ BallAt(K(S), NN(S), VIds(S), "PLManifoldStrict") /\ GeometricOrientationOK(S) /\ EmbeddedQ(S)
-  IN  \A i \in DOMAIN r.qs : LocateOne(S, valid, r.qs[i])
+  IN  \A i \in DOMAIN r.qs : LocateOne(S, valid, a.order, r.qs[i])
 
 \* ---- C11 : convex hull -------------------------------------------------------
 \* H = [facets (sequence of vertex-id sets, in the hull's own order), at (Obs at creation)]
